@@ -52,6 +52,26 @@ theorem scatter_get_of_written (pos : α → Nat) (val : α → γ) (i : Nat) (y
         rw [if_pos hp, if_pos (hp ▸ hlt), hval b List.mem_cons_self hp]
       · exact absurd hp (hn b hbs)
 
+/-- the value at a position depends only on WHICH writes hit it: two scatters of the same values
+whose position maps hit `i` resp. `i'` for the same items agree there -/
+theorem scatter_get_congr (pos pos' : α → Nat) (val : α → γ) (i i' : Nat) (s : List α)
+    (h : ∀ a ∈ s, pos a = i ↔ pos' a = i') :
+    ∀ (acc acc' : List γ), i < acc.length → i' < acc'.length → acc[i]? = acc'[i']? →
+      (scatter pos val s acc)[i]? = (scatter pos' val s acc')[i']? := by
+  induction s with
+  | nil => intro acc acc' _ _ he; exact he
+  | cons a s ih =>
+    intro acc acc' hl hl' he
+    rw [scatter_cons, scatter_cons]
+    apply ih (fun b hb => h b (List.mem_cons_of_mem _ hb)) _ _
+      (by rw [List.length_set]; exact hl) (by rw [List.length_set]; exact hl')
+    rw [List.getElem?_set, List.getElem?_set]
+    by_cases hp : pos a = i
+    · have hp' := (h a List.mem_cons_self).1 hp
+      rw [if_pos hp, if_pos hp', if_pos (by omega), if_pos (by omega)]
+    · have hp' : ¬ pos' a = i' := fun e => hp ((h a List.mem_cons_self).2 e)
+      rw [if_neg hp, if_neg hp', he]
+
 end scatter
 
 /-! ## `from_sparse` -/
@@ -159,21 +179,56 @@ theorem fromSparse_spec (zero : β) (data : List (List β)) (cols : List (List I
   intro p hp
   exact scatterRow_eq zero chans hc p.1 p.2 (hrow p hp) (hcols p.2 (List.of_mem_zip (a := p.1) (b := p.2) hp).2)
 
+/-- a successful `from_sparse` had distinct requested channels and scattered every row -/
+theorem fromSparse_eq_some (zero : β) (data : List (List β)) (cols : List (List Int)) (chans : List Nat)
+    (out : List (List β)) (ho : fromSparse zero data cols chans = some out) :
+    chans.Nodup ∧ out = (data.zip cols).map fun p => scatterRow zero chans p.1 p.2 := by
+  unfold fromSparse at ho
+  by_cases hc : chans.Nodup
+  · refine ⟨hc, ?_⟩
+    have h1 : (!decide chans.Nodup) = false := by simp [hc]
+    rw [h1] at ho
+    simp only [Bool.false_eq_true, if_false] at ho
+    split at ho
+    · cases ho
+    · split at ho
+      · cases ho
+      · injection ho with ho; exact ho.symm
+  · have h1 : (!decide chans.Nodup) = true := by simp [hc]
+    rw [h1] at ho
+    simp at ho
+
+/-- the scattered value found for a channel does not depend on where it is requested -/
+theorem scatterRow_get_congr (zero : β) (chans chans' : List Nat) (hc : chans.Nodup) (hc' : chans'.Nodup)
+    (d : List β) (c : List Int) (j j' : Nat) (hj : j < chans.length) (hj' : j' < chans'.length)
+    (heq : chans[j]'hj = chans'[j']'hj') :
+    (scatterRow zero chans d c)[j]? = (scatterRow zero chans' d c)[j']? := by
+  show (List.take chans.length (scatter (fun p : Int × β => locOf chans p.1) (fun p => p.2) (c.zip d)
+      (List.replicate (chans.length + 1) zero)))[j]? =
+    (List.take chans'.length (scatter (fun p : Int × β => locOf chans' p.1) (fun p => p.2) (c.zip d)
+      (List.replicate (chans'.length + 1) zero)))[j']?
+  rw [List.getElem?_take, List.getElem?_take, if_pos hj, if_pos hj']
+  apply scatter_get_congr
+  · intro a _
+    rw [locOf_eq_iff chans hc a.1 j hj, locOf_eq_iff chans' hc' a.1 j' hj', heq]
+  · simp; omega
+  · simp; omega
+  · rw [List.getElem?_replicate, List.getElem?_replicate, if_pos (by omega), if_pos (by omega)]
+
 theorem fromSparse_order_independent (zero : β) (data : List (List β)) (cols : List (List Int))
-    (chans chans' : List Nat) (hc : chans.Nodup) (hc' : chans'.Nodup) (hlen : data.length = cols.length)
-    (hrow : ∀ p ∈ data.zip cols, p.1.length = p.2.length) (hcols : ColsOK cols)
+    (chans chans' : List Nat)
     (out out' : List (List β)) (ho : fromSparse zero data cols chans = some out)
     (ho' : fromSparse zero data cols chans' = some out') (i j j' : Nat) (hj : j < chans.length)
-    (hj' : j' < chans'.length) (heq : chans[j]'hj = chans'[j']'hj') (hi : i < data.length) :
+    (hj' : j' < chans'.length) (heq : chans[j]'hj = chans'[j']'hj') :
     (out.getD i []).getD j zero = (out'.getD i []).getD j' zero := by
-  rw [fromSparse_spec zero data cols chans hc hlen hrow hcols] at ho
-  rw [fromSparse_spec zero data cols chans' hc' hlen hrow hcols] at ho'
-  injection ho with ho
-  injection ho' with ho'
-  subst ho ho'
-  have hi' : i < (data.zip cols).length := by rw [List.length_zip]; omega
-  simp only [List.getD_eq_getElem?_getD, List.getElem?_map, List.getElem?_eq_getElem hi',
-    List.getElem?_eq_getElem hj, List.getElem?_eq_getElem hj', Option.map_some, Option.getD_some, heq]
+  obtain ⟨hc, rfl⟩ := fromSparse_eq_some zero data cols chans out ho
+  obtain ⟨hc', rfl⟩ := fromSparse_eq_some zero data cols chans' out' ho'
+  simp only [List.getD_eq_getElem?_getD, List.getElem?_map]
+  cases (data.zip cols)[i]? with
+  | none => rfl
+  | some p =>
+    simp only [Option.map_some, Option.getD_some]
+    rw [scatterRow_get_congr zero chans chans' hc hc' p.1 p.2 j j' hj hj' heq]
 
 
 /-! ## `get_features` -/
